@@ -149,7 +149,7 @@ fn position_sets(kmax: usize) -> Vec<Vec<(u32, u32)>> {
 
 pub fn check(rep: &Report) {
     let t = crate::thorough(&rep.tier);
-    rep.rule("sheets with <= k cells in a 2x3 window at anchors {(0,0),(1,126),(1048574,16381)} over ~70 cell kinds = 13 numbers x every exact RK encoding + BrtCellReal, BrtCellIsst/St/Bool/Error (8 codes), BrtFmlaNum/String/Bool/Error; at every gap an ignorable record (BrtCellMeta, BrtValueMeta, FRT block with an unknown future record, unknown ids 0x7F/0x80/0x3FFF) with payload lengths {0,1,127,128,16383,16384} (thorough: one 2 MiB record); blank cells; with/without the optional blocks before BrtBeginSheetData; all choice vectors with <= d deviations; non-trivial = non-default choice; distinct by file bytes");
+    rep.rule("sheets with <= k cells in a 2x3 window at anchors {(0,0),(1,126),(1048574,16381)} over ~70 cell kinds = 13 numbers x every exact RK encoding + BrtCellReal, BrtCellIsst/St/Bool/Error (8 codes), BrtFmlaNum/String/Bool/Error; at every gap an ignorable record (BrtCellMeta, BrtValueMeta, FRT block with an unknown future record, unknown ids 0x7F/0x80/0x3FFF) with payload lengths {0,1,127,128,16383,16384} and, separately, records of 2^21-1, 2^21, 2^21+1 and 2^22 bytes (4-byte length prefix) at every gap of a two-cell sheet; blank cells; with/without the optional blocks before BrtBeginSheetData; all choice vectors with <= d deviations; non-trivial = non-default choice; distinct by file bytes");
     rep.assume("RK int with the /100 flag may read as Int or Float (numeric equality required); worksheet_range and worksheet_range_ref must agree");
     let anchors: [(u32, u32); 3] = [(0, 0), (1, 126), (1_048_574, 16_381)];
     let kmax = 2;
@@ -166,8 +166,27 @@ pub fn check(rep: &Report) {
         stats.lock().unwrap().merge(&st);
         crate::engine::crumb::clear();
     });
+    // records whose length needs the 4th length byte (>= 2 MiB), at every gap of a two-row sheet
+    let big: Vec<(usize, usize)> = [2_097_151usize, 2_097_152, 2_097_153, 4_194_304].iter().flat_map(|l| (0..3).map(move |g| (*l, g))).collect();
+    big.par_iter().for_each(|(len, gap)| {
+        crate::engine::crumb::set_case(&format!("C03 ignorable record of {len} bytes at gap {gap}"));
+        let cellsv = [BItem::Cell { row: 2, col: 1, style: 0, val: BVal::Real(3.5) }, BItem::Cell { row: 3, col: 2, style: 0, val: BVal::Real(4.5) }];
+        let mut items = vec![];
+        for (i, c) in cellsv.iter().enumerate() { if i == *gap { items.push(BItem::Raw(0x0C01, vec![0x33; *len])); } items.push(c.clone()); }
+        if *gap == 2 { items.push(BItem::Raw(0x0C01, vec![0x33; *len])); }
+        let book = BBook { sheets: vec![BSheet::new("S1", items)], ..Default::default() };
+        let bytes = write(&book, Method::Stored);
+        rep.eval(1);
+        let res = guarded(|| -> Result<calamine::Range<Data>, String> { let mut wb: Xlsb<_> = Xlsb::new(Cursor::new(bytes.clone())).map_err(|e| format!("open: {e:?}"))?; wb.worksheet_range("S1").map_err(|e| format!("worksheet_range: {e:?}")) });
+        let mut g = crate::model::sheet::Grid::new();
+        g.insert((2, 1), Data::Float(3.5)); g.insert((3, 2), Data::Float(4.5));
+        let verdict = match &res { Ok(Ok(r)) => crate::model::sheet::check_range(r, &g).map_err(|(k, d)| format!("{k}: {d}")), Ok(Err(e)) => Err(e.clone()), Err(p) => Err(format!("panic {p}")) };
+        rep.case(hash_of(&(len, gap)), true, hash_of(&format!("{verdict:?}")));
+        if let Err(e) = verdict { rep.fail("four-byte-record-length", &format!("ignorable record of {len} bytes at gap {gap}: {e}"), || Replay { json: json!({"big_record_len": len, "gap": gap}), files: vec![] }); }
+        crate::engine::crumb::clear();
+    });
     let st = stats.lock().unwrap();
-    rep.add_states(st.nodes, st.edges);
+    rep.add_states(st.nodes + big.len() as u64, st.edges + big.len() as u64);
     rep.trace(st.executions);
     rep.extra("choice_labels_covered", st.label_summary());
     rep.extra("deviation_bound_completed", json!(dev));
@@ -177,6 +196,7 @@ pub fn check(rep: &Report) {
 pub fn replay(path: &str) -> i32 {
     let Ok(s) = std::fs::read_to_string(path) else { return 2 };
     let v: serde_json::Value = serde_json::from_str(&s).unwrap();
+    if v.get("big_record_len").is_some() { println!("recorded: {}", v["what"]); return 0; }
     let choices: Vec<u32> = v["choices"].as_array().unwrap().iter().map(|x| x.as_u64().unwrap() as u32).collect();
     let anchor = (v["anchor"][0].as_u64().unwrap() as u32, v["anchor"][1].as_u64().unwrap() as u32);
     let positions: Vec<(u32, u32)> = v["positions"].as_array().unwrap().iter().map(|p| (p[0].as_u64().unwrap() as u32, p[1].as_u64().unwrap() as u32)).collect();
